@@ -33,10 +33,15 @@ type Spec struct {
 	MaxExec int             `json:"max_exec,omitempty"`
 	BudgetS int             `json:"budget_s,omitempty"` // wall-clock budget; exceeding it ends the run with exhaustive:false, never a verdict
 	Choices []int           `json:"choices,omitempty"`  // replay only
+	NoCache bool            `json:"no_cache,omitempty"` // explore without happens-before state caching (sees orderings of unsynchronised accesses)
 }
 
 func (s Spec) String() string {
-	return fmt.Sprintf("%s/%s %s %s bound=%d", s.Prop, s.Part, s.Kind, string(s.Params), s.Bound)
+	nc := ""
+	if s.NoCache {
+		nc = " nocache"
+	}
+	return fmt.Sprintf("%s/%s %s %s bound=%d%s", s.Prop, s.Part, s.Kind, string(s.Params), s.Bound, nc)
 }
 
 // PartDef is what a part registers.
@@ -94,6 +99,7 @@ func runSpec(sp Spec, p *ev.Part) {
 	sc.Name = sp.String()
 	sc.Bound = sp.Bound
 	sc.MaxExec = sp.MaxExec
+	sc.NoCache = sp.NoCache
 	sc.Known = known
 	if sp.BudgetS > 0 {
 		sc.Deadline = time.Now().Add(time.Duration(sp.BudgetS) * time.Second)
